@@ -133,6 +133,7 @@ class FnItem:
     def __init__(self, name, owner, params, ret, body):
         self.name, self.owner, self.params, self.ret, self.body = name, owner, params, ret, body
         self.generics = []
+        self.fn_gen = []
 
 
 class FileIndex:
@@ -281,8 +282,11 @@ class FileIndex:
             if k == "id" and v == "fn" and t[i + 1][0] == "id":
                 name = t[i + 1][1]
                 j = i + 2
+                fn_gen = []
                 if t[j] == ("op", "<"):
-                    j = skip_generics(t, j)
+                    j2 = skip_generics(t, j)
+                    fn_gen = t[j:j2]
+                    j = j2
                 if t[j] != ("op", "("):
                     i += 1
                     continue
@@ -303,6 +307,7 @@ class FileIndex:
                     ret = ret[:ret.index(("id", "where"))]
                 it = FnItem(name, owner, params, ret, t[q + 1:bc])
                 it.generics = list(self.cur_generics)
+                it.fn_gen = fn_gen
                 self.fns.setdefault((owner, name), it)
                 i = bc + 1
                 continue
@@ -480,6 +485,12 @@ class P:
                 self.expect("op", "{")
                 blk = self.block()
                 return ("for", pat, it, blk)
+            if k == "id" and v == "while" and self.peek(1) != ("id", "let"):
+                self.next()
+                c = self.expr(nostruct=True)
+                self.expect("op", "{")
+                blk = self.block()
+                return ("while", c, blk)
             if k == "id" and v in ("while", "loop"):
                 raise Untranslatable("loop")
             e = self.expr(stmt=True)
@@ -540,6 +551,9 @@ class P:
             return ("un", "!", self.unary(nostruct))
         if self.accept("op", "-"):
             raise Untranslatable("unary minus")
+        if self.peek() == ("op", "||"):
+            self.next()
+            return ("closure", [], self.expr())
         if self.peek() == ("op", "|"):
             self.next()
             names = []
@@ -703,6 +717,18 @@ class P:
                 e = ("macro", path[-1], self.t[start:self.i - 1])
             elif self.accept("op", "("):
                 e = ("call", path, self.args())
+            elif (not nostruct and self.peek() == ("op", "{") and path[-1][:1].isupper() and
+                  (self.peek(1) == ("op", "}") or (self.peek(1)[0] == "id" and self.peek(2) in (("op", ":"), ("op", ","), ("op", "}"))))):
+                self.next()
+                fields = []
+                while not self.accept("op", "}"):
+                    fn_ = self.expect("id")
+                    if self.accept("op", ":"):
+                        fields.append((fn_, self.expr()))
+                    else:
+                        fields.append((fn_, ("path", [fn_])))
+                    self.accept("op", ",")
+                e = ("structlit", path, fields)
             else:
                 e = ("path", path)
         else:
